@@ -12,6 +12,7 @@ package main
 
 import (
 	"bufio"
+	"context"
 	"encoding/json"
 	"fmt"
 	"math"
@@ -383,6 +384,36 @@ func (p *dsPlugin) build() *schema.SchemaSchema {
 	return schema.NewSchema(steps).(*schema.SchemaSchema)
 }
 
+// buildCallable constructs the same plugin as a CallableSchema: callable steps with callable signal
+// handlers (what a plugin author writes and RunATPServer serves).
+func (p *dsPlugin) buildCallable() *schema.CallableSchema {
+	var steps []schema.CallableStep
+	for _, st := range p.Steps {
+		outs := map[string]*schema.StepOutputSchema{}
+		for _, o := range st.V.Outputs {
+			outs[o.Key] = schema.NewStepOutputSchema(o.V.Schema.buildScope(), o.V.Disp.build(), o.V.Error)
+		}
+		var handlers map[string]schema.CallableSignal
+		if st.V.Handlers != nil {
+			handlers = map[string]schema.CallableSignal{}
+			for _, h := range st.V.Handlers {
+				handlers[h.Key] = schema.NewCallableSignal[any, any](h.V.ID, h.V.Data.buildScope(), h.V.Disp.display(),
+					func(context.Context, any, any) {})
+			}
+		}
+		var emitters map[string]*schema.SignalSchema
+		if st.V.Emitters != nil {
+			emitters = map[string]*schema.SignalSchema{}
+			for _, e := range st.V.Emitters {
+				emitters[e.Key] = schema.NewSignalSchema(e.V.ID, e.V.Data.buildScope(), e.V.Disp.display())
+			}
+		}
+		steps = append(steps, schema.NewCallableStepWithSignals[any, any](st.V.ID, st.V.Input.buildScope(), outs, handlers, emitters,
+			st.V.Disp.display(), nil, func(context.Context, any, any) (string, any) { return "success", map[string]any{} }))
+	}
+	return schema.NewCallableSchema(steps...)
+}
+
 // ---------------------------------------------------------------------------------------------
 // generation: hx.Gen schemas, decorated
 
@@ -545,8 +576,13 @@ func (d *dsGen) decorate(t *hx.Ty, hoist *[]dsNamedObj, ns bool) *dsTy {
 			case 0:
 				out.Props = append(out.Props, dsNamedProp{"nsmap", &dsProp{Ty: &dsTy{T: "map", K: &dsTy{T: "str"}, V: nsRef()}}})
 			case 1:
+				// a one-of mixing a member from the foreign namespace, an inline object and a reference
+				// into the scope itself (a new object of the enclosing scope)
+				own := &dsTy{T: "obj", ID: d.plainID(), Props: []dsNamedProp{{"w", &dsProp{Ty: &dsTy{T: "str"}}}, {"u", &dsProp{Ty: &dsTy{T: "int"}}}}}
+				*hoist = append(*hoist, dsNamedObj{own.ID, own})
 				out.Props = append(out.Props, dsNamedProp{"nsone", &dsProp{Ty: &dsTy{T: "oneOf", Disc: "_kind",
-					Members: []dsMember{{"ext", nsRef()}, {"plain", &dsTy{T: "obj", ID: d.plainID(), Props: []dsNamedProp{{"v", &dsProp{Ty: &dsTy{T: "str"}}}}}}}}}})
+					Members: []dsMember{{"ext", nsRef()}, {"plain", &dsTy{T: "obj", ID: d.plainID(), Props: []dsNamedProp{{"v", &dsProp{Ty: &dsTy{T: "str"}}}}}},
+						{"self", &dsTy{T: "ref", ID: own.ID}}}}}})
 			case 2:
 				out.Props = append(out.Props, dsNamedProp{"nslist", &dsProp{Ty: &dsTy{T: "list", Item: nsRef()}}})
 			default:
@@ -596,7 +632,7 @@ func (d *dsGen) scope(ns bool) *dsTy {
 			// at least one reference into the foreign namespace, in the root object
 			for _, o := range t.Objs {
 				if o.ID == t.Root {
-					o.Ty.Props = append(o.Ty.Props, dsNsProps()[d.g.R.Intn(4)])
+					o.Ty.Props = append(o.Ty.Props, dsNsProps(t.Root)[d.g.R.Intn(4)])
 				}
 			}
 		}
@@ -606,13 +642,14 @@ func (d *dsGen) scope(ns bool) *dsTy {
 
 // dsNsProps: a reference into the foreign namespace as a property, a map value, a one-of member and a
 // list item.
-func dsNsProps() []dsNamedProp {
+func dsNsProps(selfID string) []dsNamedProp {
 	ref := func(id string) *dsTy { return &dsTy{T: "ref", ID: id, NS: dsForeignNS} }
 	return []dsNamedProp{
 		{"nsref", &dsProp{Ty: ref("ExtA")}},
 		{"nsmap", &dsProp{Ty: &dsTy{T: "map", K: &dsTy{T: "str"}, V: ref("ExtB")}}},
 		{"nsone", &dsProp{Ty: &dsTy{T: "oneOf", Disc: "_kind", Members: []dsMember{{"ext", ref("ExtA")},
-			{"plain", &dsTy{T: "obj", ID: "NsPlainFixed", Props: []dsNamedProp{{"v", &dsProp{Ty: &dsTy{T: "str"}}}}}}}}}},
+			{"plain", &dsTy{T: "obj", ID: "NsPlainFixed", Props: []dsNamedProp{{"v", &dsProp{Ty: &dsTy{T: "str"}}}}}},
+			{"self", &dsTy{T: "ref", ID: selfID}}}}}},
 		{"nslist", &dsProp{Ty: &dsTy{T: "list", Item: ref("ExtB")}}},
 	}
 }
